@@ -66,11 +66,12 @@ Fixpoint c_put (c : cache) (a : acct) (v : Z * bool) : cache :=
 
 Record thread := mkT {
   pc : list step;
-  store : ledger;                       (* the thread's sdk.Context *)
+  store : ledger;                       (* the thread's sdk.Context: unibi balances *)
+  wr : list acct;                       (* … and the accounts (re)written there by StateDB commits (auth store) *)
   sdb : cache;                          (* its own StateDB, meaningful when some [use] designates it *)
   use : option tid;                     (* owner of the StateDB this thread executes on *)
-  saved : option (ledger * cache);      (* EVM snapshot of the StateDB owned by this thread *)
-  mark : option ledger;
+  saved : option (ledger * list acct * cache);  (* EVM snapshot of the StateDB owned by this thread *)
+  mark : option (ledger * list acct);
   failed : bool;
   log : list ev
 }.
@@ -84,19 +85,27 @@ Definition set_ptr (st : state) (p : option tid) : state := mkS p (thr st).
 Definition t_get (o : thread) (a : acct) : Z :=
   match c_find (sdb o) a with Some (v, _) => v | None => store o a end.
 Definition t_set (o : thread) (a : acct) (v : Z) : thread :=
-  mkT (pc o) (store o) (c_put (sdb o) a (v, true)) (use o) (saved o) (mark o) (failed o) (log o).
+  mkT (pc o) (store o) (wr o) (c_put (sdb o) a (v, true)) (use o) (saved o) (mark o) (failed o) (log o).
 Definition t_log (o : thread) (e : list ev) : thread :=
-  mkT (pc o) (store o) (sdb o) (use o) (saved o) (mark o) (failed o) (log o ++ e).
+  mkT (pc o) (store o) (wr o) (sdb o) (use o) (saved o) (mark o) (failed o) (log o ++ e).
 Definition t_store (o : thread) (l : ledger) : thread :=
-  mkT (pc o) l (sdb o) (use o) (saved o) (mark o) (failed o) (log o).
+  mkT (pc o) l (wr o) (sdb o) (use o) (saved o) (mark o) (failed o) (log o).
 Definition t_pc (o : thread) (p : list step) : thread :=
-  mkT p (store o) (sdb o) (use o) (saved o) (mark o) (failed o) (log o).
+  mkT p (store o) (wr o) (sdb o) (use o) (saved o) (mark o) (failed o) (log o).
+Definition t_open (o : thread) (c : cache) (u : option tid) (sv : option (ledger * list acct * cache)) : thread :=
+  mkT (pc o) (store o) (wr o) c u sv (mark o) (failed o) (log o).
 
-(** commitCtx: write every dirty cached balance, emit burn/mint for the ones that change, clear the flags *)
+(** commitCtx: write every dirty cached account (SetAccount + SetAccBalance), emit burn/mint for the
+    balances that change, clear the flags *)
 Fixpoint flush_store (c : cache) (l : ledger) : ledger :=
   match c with
   | [] => l
   | (a, (v, d)) :: c' => flush_store c' (if d then upd l a v else l)
+  end.
+Fixpoint flush_wr (c : cache) (w : list acct) : list acct :=
+  match c with
+  | [] => w
+  | (a, (v, d)) :: c' => flush_wr c' (if d then a :: w else w)
   end.
 Fixpoint flush_evs (c : cache) (l : ledger) : list ev :=
   match c with
@@ -106,8 +115,8 @@ Fixpoint flush_evs (c : cache) (l : ledger) : list ev :=
 Definition clean (c : cache) : cache := map (fun e => (fst e, (fst (snd e), false))) c.
 
 Definition t_flush (o : thread) : thread :=
-  mkT (pc o) (flush_store (sdb o) (store o)) (clean (sdb o)) (use o) (saved o) (mark o) (failed o)
-      (log o ++ flush_evs (sdb o) (store o)).
+  mkT (pc o) (flush_store (sdb o) (store o)) (flush_wr (sdb o) (wr o)) (clean (sdb o)) (use o) (saved o) (mark o)
+      (failed o) (log o ++ flush_evs (sdb o) (store o)).
 
 (** which StateDB a bank operation of thread [t] mirrors balances into *)
 Definition private (m : mode) (t : tid) : bool :=
@@ -128,13 +137,12 @@ Definition add_log (st : state) (t : tid) (e : list ev) : state := set_thr st t 
 Definition exec (m : mode) (t : tid) (s : step) (st : state) : state :=
   let me := thr st t in
   match s with
-  | SOpenPriv =>
-      set_thr st t (mkT (pc me) (store me) [] (Some t) None (mark me) (failed me) (log me))
+  | SOpenPriv => set_thr st t (t_open me [] (Some t) None)
   | SOpenPub =>
-      if private m t then set_thr st t (mkT (pc me) (store me) [] (Some t) None (mark me) (failed me) (log me))
+      if private m t then set_thr st t (t_open me [] (Some t) None)
       else match ptr st with
-           | Some j => set_thr st t (mkT (pc me) (store me) (sdb me) (Some j) (saved me) (mark me) (failed me) (log me))
-           | None => set_ptr (set_thr st t (mkT (pc me) (store me) [] (Some t) None (mark me) (failed me) (log me))) (Some t)
+           | Some j => set_thr st t (t_open me (sdb me) (Some j) (saved me))
+           | None => set_ptr (set_thr st t (t_open me [] (Some t) None)) (Some t)
            end
   | SXfer a b n =>
       match use me with
@@ -151,8 +159,7 @@ Definition exec (m : mode) (t : tid) (s : step) (st : state) : state :=
       match use me with
       | None => st
       | Some j =>
-          let o := thr st j in
-          let f := t_flush o in
+          let f := t_flush (thr st j) in
           if n <=? store f a then
             let l := bank_send (store f) a b n in
             let st1 := set_thr st j (t_store f l) in
@@ -175,21 +182,20 @@ Definition exec (m : mode) (t : tid) (s : step) (st : state) : state :=
         let k := target m st1 t in
         sync (sync st1 k l a) k l b
       else
-        set_thr st t (mkT (pc me) (match mark me with Some l => l | None => store me end) (sdb me) (use me)
-                          (saved me) (mark me) true (log me))
-  | SMark => set_thr st t (mkT (pc me) (store me) (sdb me) (use me) (saved me) (Some (store me)) (failed me) (log me))
+        let lw := match mark me with Some lw => lw | None => (store me, wr me) end in
+        set_thr st t (mkT (pc me) (fst lw) (snd lw) (sdb me) (use me) (saved me) (mark me) true (log me))
+  | SMark => set_thr st t (mkT (pc me) (store me) (wr me) (sdb me) (use me) (saved me) (Some (store me, wr me)) (failed me) (log me))
   | SSnap =>
       match use me with
       | None => st
-      | Some j => let o := thr st j in
-                  set_thr st j (mkT (pc o) (store o) (sdb o) (use o) (Some (store o, sdb o)) (mark o) (failed o) (log o))
+      | Some j => let o := thr st j in set_thr st j (t_open o (sdb o) (use o) (Some (store o, wr o, sdb o)))
       end
   | SRevert =>
       match use me with
       | None => st
       | Some j => let o := thr st j in
                   match saved o with
-                  | Some (l, c) => set_thr st j (mkT (pc o) l c (use o) (saved o) (mark o) (failed o) (log o))
+                  | Some (l, w, c) => set_thr st j (mkT (pc o) l w c (use o) (saved o) (mark o) (failed o) (log o))
                   | None => st
                   end
       end
@@ -234,12 +240,13 @@ Fixpoint hazard_free (st : state) (sched : list tid) : bool :=
   end.
 
 (** initial states: pointer clear, no thread executes on a StateDB yet *)
-Definition init_thread (p : list step) (l : ledger) : thread := mkT p l [] None None None false [].
+Definition init_thread (p : list step) (l : ledger) : thread := mkT p l [] [] None None None false [].
 Definition init (ths : list (list step)) (l0 : tid -> ledger) : state :=
   mkS None (fun t => init_thread (nth t ths []) (l0 t)).
 
 (** what the block commits and what the transaction returns *)
 Definition committed (st : state) : ledger := store (thr st 0%nat).
+Definition written (st : state) : list acct := wr (thr st 0%nat).
 Definition tx_result (st : state) : bool * list ev := (failed (thr st 0%nat), log (thr st 0%nat)).
 
 Definition count0 (sched : list tid) : nat := length (filter (Nat.eqb 0%nat) sched).
